@@ -14,11 +14,11 @@ func init() {
 	register(&Rule{ID: "WR1", Min: 4, Run: ruleWR1,
 		Doc: "replace-protocol: (a) no truncating open (O_TRUNC/Create/WriteFile) targets the live log: a LOG-class target must be <live>+const suffix; (b) that temp value is the source of the os.Rename onto the live path and the rename is dominated by the temp writer's nil-error edge; (c) in the temp writer every non-error return passes the nil edge of Flush, and every buffered Write error is checked; (d) every writable open of the temp file truncates it (a stale temp left by a killed writer must not survive into the renamed file); the temp may instead be an os.CreateTemp file in filepath.Dir(<live>) renamed by its Name(), filled by a writer handed the handle (or its name) whose success dominates the rename, and - (f) - given its mode by a Chmod that dominates the rename, since CreateTemp always creates 0600 and the log every other path creates is 0644; (e) the live log is never unlinked or truncated by path"})
 	register(&Rule{ID: "WR2", Min: 3, Run: ruleWR2,
-		Doc: "history-grows: (a) every writable open of the live log is O_APPEND without O_TRUNC (or a create-if-absent whose handle is only closed); (b) the replace primitive (rename onto the log) is reachable only from compact and from prefix-preserving wrappers whose new content is append(append(fresh, existing...), appended...) with `existing` the unmodified result of reading the same path in the same function"})
+		Doc: "history-grows: (a) every writable open of the live log is O_APPEND without O_TRUNC (or a create-if-absent whose handle is only closed); (b) the replace primitive (rename onto the log) is reachable only from compact and from prefix-preserving wrappers whose new content is append(append(fresh, existing...), appended...) with `existing` the unmodified result of reading the same path in the same function, or an identity rewrite (the content is exactly what readEvents returned for that path)"})
 	register(&Rule{ID: "WR3", Min: 1, Run: ruleWR3,
 		Doc: "one-write-per-commit: in the append primitive the append handle is written by exactly one non-looping call (a direct Write or the short-write retry helper); no buffered writer or encoder wraps the handle; the retry helper's loop is the recognised data=data[n:] form"})
 	register(&Rule{ID: "WR4", Min: 1, Run: ruleWR4,
-		Doc: "append-tail-aware: in the append primitive the O_APPEND open is reachable only on the edge where a tail inspection of the same path (helper that opens the path and reads its last byte, or Stat/ReadAt/Seek on the handle) reported a terminated tail; the unterminated edge leads to the prefix-preserving atomic rewrite"})
+		Doc: "append-tail-aware: in the append primitive the O_APPEND open is reachable only on the edge where a tail inspection of the same path (helper that opens the path and reads its last byte, or Stat/ReadAt/Seek on the handle) reported a terminated tail; the unterminated edge leads to the prefix-preserving atomic rewrite; or the append is reached only after a tail repairer (probe of the same path, identity rewrite when unterminated) reported success"})
 	register(&Rule{ID: "WR6", Min: 4, Run: ruleWR6,
 		Doc: "reader-single-stream: the log reader opens the file once and its handle flows only into one sequential scanner (no Stat/ReadAt/Seek/second read); an unparsable final line is tolerated (events, nil) on some path, and the flag deciding tolerance is written only inside the scanner's split function from the bytes the scanner hands out; list and show load the log exactly once, not in a loop; (vi) the scanner's split function hands on every line it is given: it never advances past bytes without returning them as a token (a reader that skips over-long or otherwise unwelcome lines makes items vanish while the events that refer to them stay)"})
 }
@@ -315,6 +315,40 @@ func (c *Ctx) checkTempWriter(w *ssa.Function) {
 	}
 	usesBuf := len(callsNamed(w, "bufio.NewWriter", "bufio.NewWriterSize")) > 0
 	if len(writes) == 0 {
+		// the writing may be delegated to a helper handed the open handle (writeEventsTo(file, events)): the helper is
+		// the writer, and this function reports success only with the helper's
+		for _, call := range callsIn(w) {
+			cv, isCall := call.(*ssa.Call)
+			inner := calleeOf(call.Common())
+			if !isCall || inner == nil || inner == w || !c.InModule(inner) || inner.Blocks == nil || errorResultIndex(call) < 0 {
+				continue
+			}
+			handed := false
+			for _, a := range call.Common().Args {
+				if a.Type().String() == "*os.File" {
+					handed = true
+				}
+			}
+			if !handed {
+				continue
+			}
+			okRet := true
+			pass := nilErrEdges(w, cv)
+			for _, r := range c.nonFailingReturns(w) {
+				if r.Block().Comment == "recover" || len(r.Results) == 0 {
+					continue
+				}
+				last := strip(returnedValue(r, len(r.Results)-1))
+				if last == ssa.Value(cv) || mustPassEdges(w, r.Block(), pass) {
+					continue
+				}
+				okRet = false
+			}
+			c.check(okRet, fn, "c:writer-delegates", c.Pos(call.Pos()), "the writing is done by "+c.Name(inner)+" on the open handle and its error is this function's",
+				"this function can report success without "+c.Name(inner)+" (which writes the temp file) having succeeded")
+			c.checkTempWriter(inner)
+			return
+		}
 		c.bad(fn, "c:flush-before-success", c.FnPos(w), "temp writer contains no write call")
 		return
 	}
@@ -478,6 +512,10 @@ func ruleWR2(c *Ctx) {
 			args := cs.Call.Common().Args
 			if len(args) < 2 {
 				c.bad(fn, construct, pos, "replace primitive called with unexpected arguments")
+				continue
+			}
+			if c.identityRewriteCall(cs.Call) {
+				c.ok(fn, construct, pos, "identity rewrite: the log is replaced by exactly the events just read from it (a torn fragment is all that can go)")
 				continue
 			}
 			p1, p2, ok := prefixAppendShape(args[1])
@@ -848,6 +886,101 @@ func (c *Ctx) retryHelperOK(helper *ssa.Function, call ssa.CallInstruction, hand
 	return ""
 }
 
+// identityRewriteCall: a call of a replace primitive (a function that renames a temp over its path parameter) whose
+// content is exactly what readEvents just handed back for that same path: the observable state is unchanged by it.
+func (c *Ctx) identityRewriteCall(call ssa.CallInstruction) bool {
+	cal := calleeOf(call.Common())
+	re := c.F.Anchors["readEvents"]
+	if cal == nil || re == nil || len(call.Common().Args) != 2 {
+		return false
+	}
+	isPrim := false
+	for _, rs := range c.renameSites() {
+		if rs.Fn == cal {
+			isPrim = true
+		}
+	}
+	if !isPrim {
+		return false
+	}
+	args := call.Common().Args
+	ex, ok := resolve(args[1]).(*ssa.Extract)
+	if !ok || ex.Index != 0 {
+		return false
+	}
+	rd, ok := ex.Tuple.(*ssa.Call)
+	if !ok || calleeOf(&rd.Call) != re || len(rd.Call.Args) == 0 || c.canon(rd.Call.Args[0]) != c.canon(args[0]) {
+		return false
+	}
+	// the slice read is handed over untouched: its only other uses are the hand-over itself and debug references
+	for _, u := range *ex.Referrers() {
+		switch x := u.(type) {
+		case *ssa.DebugRef:
+		case ssa.CallInstruction:
+			if x != call {
+				return false
+			}
+		default:
+			return false
+		}
+	}
+	return true
+}
+
+// tailRepairer: R(path ...) error probes the tail of its path and, when it is unterminated, rewrites the log by an
+// identity rewrite; it reports success only when the tail was found terminated or the rewrite succeeded.
+func (c *Ctx) tailRepairer(R *ssa.Function) bool {
+	if R == nil || R.Blocks == nil || len(R.Params) == 0 {
+		return false
+	}
+	pc := c.canon(R.Params[0])
+	var flag ssa.Value
+	var rewrite *ssa.Call
+	for _, call := range callsIn(R) {
+		cv, ok := call.(*ssa.Call)
+		if !ok {
+			continue
+		}
+		cal := calleeOf(&cv.Call)
+		if cal == nil || !c.InModule(cal) || len(cv.Call.Args) == 0 || c.canon(cv.Call.Args[0]) != pc {
+			continue
+		}
+		if c.readsTailOfParam0(cal) && cv.Referrers() != nil {
+			for _, r := range *cv.Referrers() {
+				if ex, ok := r.(*ssa.Extract); ok && ex.Index == 0 {
+					flag = ex
+				}
+			}
+		}
+		if c.identityRewriteCall(cv) {
+			rewrite = cv
+		}
+	}
+	if flag == nil || rewrite == nil {
+		return false
+	}
+	pass := edgesWhere(R, func(a Atom, holds bool) bool { return a.Kind == "bool" && strip(a.X) == flag && !holds })
+	for e := range nilErrEdges(R, rewrite) {
+		pass[e] = true
+	}
+	// (a return shared with a failing path - `if err != nil || !unterminated { return err }` - is entered either with a
+	// non-nil error or across the terminated edge)
+	for e := range edgesWhere(R, func(a Atom, holds bool) bool { return a.Kind == "nil" && !holds && isErrorType(a.X) }) {
+		pass[e] = true
+	}
+	n := 0
+	for _, r := range c.nonFailingReturns(R) {
+		n++
+		if len(r.Results) == 1 && strip(returnedValue(r, 0)) == ssa.Value(rewrite) {
+			continue // return replace(path, existing): its error is the result
+		}
+		if !mustPassEdges(R, r.Block(), pass) {
+			return false
+		}
+	}
+	return n > 0
+}
+
 // ------------------------------------------------------------------ WR4
 
 func ruleWR4(c *Ctx) {
@@ -896,6 +1029,27 @@ func ruleWR4(c *Ctx) {
 			f = cs.Fn
 		}
 		if insp == nil {
+			// or the tail is repaired first: a helper that probes the tail of the same path and, when it is unterminated,
+			// replaces the log by what the tolerant reader made of it; the append is reached only with that helper's success
+			repaired := false
+			pathCanon := c.canon(pathV)
+			for _, call := range callsIn(f) {
+				cv, ok := call.(*ssa.Call)
+				if !ok {
+					continue
+				}
+				cal := calleeOf(&cv.Call)
+				if cal == nil || !c.InModule(cal) || len(cv.Call.Args) == 0 || c.canon(cv.Call.Args[0]) != pathCanon || !c.tailRepairer(cal) {
+					continue
+				}
+				if mustPassEdges(f, site.Block(), nilErrEdges(f, cv)) {
+					repaired = true
+				}
+			}
+			if repaired {
+				c.ok(fn, construct+"|tail-inspected", pos, "the append is reached only after a tail repair (probe, and identity rewrite of an unterminated log) succeeded")
+				continue
+			}
 			c.bad(fn, construct+"|tail-inspected", pos, "the bytes appended do not depend on the current tail of the file: a torn fragment left by a killed writer is glued to the next line and every later command fails")
 			continue
 		}
